@@ -8,6 +8,7 @@ import (
 	"sort"
 	"strings"
 	"testing"
+	"time"
 
 	"github.com/anishathalye/porcupine"
 	"github.com/lni/dragonboat/v4/internal/vfhelp"
@@ -214,25 +215,25 @@ func getProfile(name string) profile {
 
 func genShape(t *rapid.T, p profile) simShape {
 	sh := simShape{
-		Voters:      rapid.SampledFrom([]int{1, 2, 3, 3, 3, 3, 4, 5, 5}).Draw(t, "voters"),
+		Voters:      []int{1, 2, 3, 3, 3, 3, 4, 5}[vfhelp.Pick(t, "voters", 3)],
 		PreVote:     rapid.Bool().Draw(t, "prevote"),
 		CheckQuorum: rapid.Bool().Draw(t, "checkquorum"),
 		Ordered:     rapid.Bool().Draw(t, "ordered"),
-		ElectionRTT: rapid.SampledFrom([]int{3, 4, 5, 6}).Draw(t, "ert"),
-		Warm:        rapid.IntRange(0, 4).Draw(t, "warm") > 0,
+		ElectionRTT: []int{3, 4, 5, 6}[vfhelp.Pick(t, "ert", 2)],
+		Warm:        vfhelp.Pick(t, "warm", 2) > 0,
 	}
 	sh.TinyMsg = rapid.Bool().Draw(t, "tinymsg")
 	sh.TinyInMem = rapid.Bool().Draw(t, "tinyinmem")
-	nsp := rapid.IntRange(p.minSpare, 3).Draw(t, "nspare")
+	nsp := p.minSpare + vfhelp.PickN(t, "nspare", 4-p.minSpare)
 	for i := 0; i < nsp; i++ {
 		if len(p.spareBias) > 0 {
-			sh.Spares = append(sh.Spares, rapid.SampledFrom(p.spareBias).Draw(t, "sparekind"))
+			sh.Spares = append(sh.Spares, p.spareBias[vfhelp.PickN(t, "sparekind", len(p.spareBias))])
 		} else {
-			sh.Spares = append(sh.Spares, rapid.SampledFrom([]int{0, 0, 1, 2}).Draw(t, "sparekind"))
+			sh.Spares = append(sh.Spares, []int{0, 0, 1, 2}[vfhelp.Pick(t, "sparekind", 2)])
 		}
 	}
 	for i := 0; i < sh.Voters+nsp; i++ {
-		sh.TimeoutOffs = append(sh.TimeoutOffs, rapid.IntRange(0, sh.ElectionRTT-1).Draw(t, "toff"))
+		sh.TimeoutOffs = append(sh.TimeoutOffs, vfhelp.PickN(t, "toff", sh.ElectionRTT))
 	}
 	return sh
 }
@@ -246,17 +247,17 @@ func genAction(p profile) *rapid.Generator[simAction] {
 	}
 	return rapid.Custom(func(t *rapid.T) simAction {
 		return simAction{
-			Kind: rapid.SampledFrom(kinds).Draw(t, "kind"),
-			A:    rapid.IntRange(0, 63).Draw(t, "a"),
-			B:    rapid.IntRange(0, 63).Draw(t, "b"),
-			C:    rapid.IntRange(0, 15).Draw(t, "c"),
+			Kind: kinds[vfhelp.PickN(t, "kind", len(kinds))],
+			A:    vfhelp.Pick(t, "a", 6),
+			B:    vfhelp.Pick(t, "b", 6),
+			C:    vfhelp.Pick(t, "c", 4),
 		}
 	})
 }
 
 func genCase(t *rapid.T, p profile) simCase {
 	c := simCase{Shape: genShape(t, p)}
-	n := rapid.IntRange(10, p.maxAct).Draw(t, "nactions")
+	n := 10 + vfhelp.PickN(t, "nactions", p.maxAct-9)
 	c.Actions = rapid.SliceOfN(genAction(p), n, n).Draw(t, "actions")
 	return c
 }
@@ -1110,7 +1111,14 @@ func (s *sim) checkLinearizable() {
 	if len(hist) == 0 {
 		return
 	}
-	if !porcupine.CheckOperations(registerModel, hist) {
+	res := porcupine.CheckOperationsTimeout(registerModel, hist, 3*time.Second)
+	if res == porcupine.Unknown {
+		// search budget exhausted: inconclusive for this case, never a violation
+		s.flag("lin-check-budget-exhausted")
+		return
+	}
+	s.flag("lin-checked")
+	if res == porcupine.Illegal {
 		var sb strings.Builder
 		for _, op := range s.ops {
 			fmt.Fprintf(&sb, "{%d %s w=%v key=%s val=%s rep=%d [%d,%d] %s} ", op.id, map[bool]string{true: "W", false: "R"}[op.write], op.write, op.key, op.val, op.rep, op.invoke, op.ret, op.outcome)
@@ -1182,6 +1190,9 @@ func runCase(c simCase, p profile, tracing bool) (res simResult) {
 			res.foreign = !inFamily(res.sig)
 		}
 	}()
+	if p.lin {
+		s.maxOps = 36
+	}
 	s.setup(c.Shape)
 	for _, a := range c.Actions {
 		s.doAction(a)
